@@ -6,7 +6,7 @@ wt=/tmp/confirm-$1
 export GOFLAGS=-mod=mod GOPROXY=off GOSUMDB=off GOTOOLCHAIN=local
 cmd=$(grep -ho 'go test[^`]*' $d/notes.txt | head -1)
 pkg=$(echo "$cmd" | grep -o '\./[A-Za-z0-9_/]*' | tail -1)
-run=$(echo "$cmd" | grep -o "\-run '\?[A-Za-z0-9_]*" | cut -d' ' -f2 | tr -d "'")
+run=$(echo "$cmd" | sed -n "s/.*-run '\{0,1\}\([A-Za-z0-9_|]*\)'\{0,1\}.*/\1/p")
 git -C /repo worktree add -q --detach $wt HEAD || exit 2
 cp $d/demo_test.go $wt/$pkg/zz_seeded_demo_test.go
 cd $wt
